@@ -8,15 +8,19 @@ cd "$(dirname "$0")/../.."
 . bin/env.sh
 . checks/c25/balenum/inpkg.sh
 inpkg_test_balenum pkg/kfake "$VERIF_ROOT/hooks/inpkg/c25_kfake_test.go" "$BUILD/c25_kfake.test"
+inpkg_test_balenum pkg/kgo/internal/sticky "$VERIF_ROOT/hooks/inpkg/c25_sticky_test.go" "$BUILD/c25_sticky.test"
 go build -o "$BUILD/c25" ./checks/c25
 if [ -n "${VERIF_REPLAY:-}" ]; then
   rc=0
   "$BUILD/c25_kfake.test" -test.run '^TestVerifC25$' -test.timeout 0 || rc=$?
+  "$BUILD/c25_sticky.test" -test.run '^TestVerifC25Sticky$' -test.timeout 0 || rc=$?
   "$BUILD/c25" || rc=$?
   exit $rc
 fi
 # per-run file: concurrent runs of this check must not clobber each other
 export C25_KFAKE_SUMMARY="$BUILD/c25_kfake_summary.$$.json"
-trap 'rm -f "$C25_KFAKE_SUMMARY"' EXIT
+export C25_STICKY_SUMMARY="$BUILD/c25_sticky_summary.$$.json"
+trap 'rm -f "$C25_KFAKE_SUMMARY" "$C25_STICKY_SUMMARY"' EXIT
 "$BUILD/c25_kfake.test" -test.run '^TestVerifC25$' -test.timeout 0 || { echo "INFRA-ERROR: kfake harness failed" >&2; exit 2; }
+"$BUILD/c25_sticky.test" -test.run '^TestVerifC25Sticky$' -test.timeout 0 || { echo "INFRA-ERROR: sticky-engine harness failed" >&2; exit 2; }
 "$BUILD/c25"
